@@ -105,6 +105,7 @@ func main() {
 	checkContraMap(ints, strs)
 	checkContraMapIface()
 	checkMonoidWithoutSemigroup()
+	checkMonoidSliceIdentity()
 	checkFrom(ints, strs)
 	checkMonoid(ints, strs)
 }
